@@ -830,8 +830,11 @@ struct Digit {
                     SizeT32 times = fraction_length;
 
                     if (times >= DigitConst::MaxPowerOfFive) {
+                        // One word more than the digits themselves need: the words cut off below must stay too
+                        // small to reach the rounding digit (with +2, the 18 significant digits of 29 * 2^-593 came out
+                        // one unit too low).
                         const SizeT32 max_index = (format.Precision < Info_T::MaxCut)
-                                                      ? ((format.Precision / DigitConst::MaxPowerOfTen) + 2U)
+                                                      ? ((format.Precision / DigitConst::MaxPowerOfTen) + 3U)
                                                       : b_int.MaxIndex();
 
                         do {
